@@ -86,7 +86,7 @@ Proof.
     rewrite E3 in Hsim.
     destruct (inv_reduce g tb c nterm eb discard Hval w 0 s stk wc wr top action pr 1
                 Hw HC HE Hpk Htop Hf' E1 E Hp0 Hp Hitem)
-      as (s' & ns & Hps & HI' & (R1 & R2 & R3 & R4) & Hlen & Hmap' & exposed & rest' & Hsk & Hg).
+      as (s' & ns & Hps & HI' & (R1 & R2 & R3 & R4 & _) & Hlen & Hmap' & exposed & rest' & Hsk & Hg).
     rewrite Hmap in Hmap', Hsk.
     assert (E4 : (Z.of_nat (length (i_state top :: st0)) <=? Z.of_nat (length (rhs pr)))%Z = false).
     { apply Z.leb_gt. rewrite <- Hmap, map_length. lia. }
@@ -110,6 +110,10 @@ Proof.
     destruct (inv_shift g tb c nterm Hval w s stk wc wr action b Hw HC HE E) as (s2 & Hrd & HI2); auto.
     { rewrite Hla. discriminate. }
     { rewrite Hla. exact Hpast. }
+    assert (Hss : shift_state s action b =
+                  set_stack s ({| i_state := action; i_sym := lasym s; i_bounds := b |} :: stack s))
+      by (unfold shift_state; rewrite Hla; reflexivity).
+    rewrite Hss in Hrd, Hps.
     rewrite read_queued in Hrd by (cbn [set_stack qla]; exact Hq).
     inversion Hrd; subst s2. rewrite read_queued in Hps by (cbn [set_stack qla]; exact Hq).
     exists s, top, action, b. repeat split; auto.
